@@ -1,10 +1,11 @@
 (* C06 — Strings with equal UTF-16 content are indistinguishable, whatever their origin.
-   ONLY theorem statements; each is closed by [exact] of a lemma of C06/Proofs*.v.
+   ONLY theorem statements; each is closed by [exact] of a lemma of C06/Proofs*.v / Utf8.v.
    jsstr = goja's asciiString / unicodeString / importedString; units = the UTF-16 meaning;
-   nf = goja's normal form (asciiString all < 0x80, unicodeString has a unit >= 0x80). *)
+   nf = goja's normal form (asciiString all < 0x80, unicodeString has a unit >= 0x80);
+   ieval = goja's algorithms on an expression tree, seval = the same tree on plain unit lists (the spec). *)
 From Coq Require Import List NArith ZArith Bool.
 Import ListNotations.
-From Verif.C06 Require Import Model Proofs Proofs2 Proofs3 Proofs4.
+From Verif.C06 Require Import Model Proofs Utf8 Proofs2 Proofs3 Proofs4 Proofs5.
 Local Open Scope N_scope.
 
 (* ---- 1. nf_closed: every constructor and every operation yields a normal-form string ------------------- *)
@@ -43,61 +44,80 @@ Theorem constructors_eq_spec : forall (s us cps : list N),
   units (from_utf16 us) = us /\ units (from_code_points cps) = s_from_code_points cps.
 Proof. exact Proofs3.T_constructors_eq_spec. Qed.
 
-(* full statement [forall a b, units (concat a b) = units a ++ units b] is refuted on the current tree (below);
-   proved with the unscanned+unscanned importedString fast path carved out *)
-Theorem strop_eq_spec_partial : forall a b s e i, nf a = true -> nf b = true ->
-  (both_unscanned a b = false -> units (concat a b) = units a ++ units b) /\
+(* full strength: Concat for all nine pairs, including unscanned+unscanned importedStrings with ANY bytes *)
+Theorem strop_eq_spec : forall a b s e i, nf a = true -> nf b = true ->
+  units (concat a b) = units a ++ units b /\
   units (substring a s e) = cut (units a) s e /\
   char_at a i = nth i (units a) 0 /\
   length_of a = length (units a) /\
   units (devirt a) = units a.
-Proof. exact Proofs3.T_strop_eq_spec_partial. Qed.
+Proof. exact Proofs3.T_strop_eq_spec. Qed.
 
-Theorem concat_eq_spec_refuted : exists s t,
-  units (concat (SImp s false) (SImp t false)) <> units (SImp s false) ++ units (SImp t false).
-Proof. exact concat_fast_refuted. Qed.
+(* the byte-joining fast path of importedString.Concat is taken only when this holds *)
+Theorem concat_fast_path_sound : forall s t, last_rune_ok s = true -> decode (s ++ t) = decode s ++ decode t.
+Proof. exact Utf8.last_rune_ok_app. Qed.
+
+(* ... and the guard is needed (this is the defect repaired by fd1eed7) *)
+Example concat_guard_needed : exists s t,
+  units (SImp (s ++ t) false) <> units (SImp s false) ++ units (SImp t false) /\ last_rune_ok s = false.
+Proof. exact Proofs2.raw_join_wrong. Qed.
+
+(* the builtins as goja composes them from Substring / Concat / the builders, against the spec functions *)
+Theorem builtins_eq_spec : forall a f (s e : Z) (n : nat) (st up' : bool) (m : N) l1 l2 l3,
+  nf a = true -> nf f = true ->
+  units (i_slice a s e) = s_slice (units a) s e /\
+  units (i_substring a s e) = s_substring (units a) s e /\
+  units (i_substr a s e) = s_substr (units a) s e /\
+  units (i_at a s) = s_at (units a) s /\
+  units (i_char_at a s) = s_char_at (units a) s /\
+  units (i_repeat a n) = s_repeat (units a) n /\
+  units (i_pad a s f st) = s_pad (units a) s (units f) st /\
+  units (concat_strings (lit_part l1 ++ [a] ++ lit_part l2 ++ [f] ++ lit_part l3)) = l1 ++ units a ++ l2 ++ units f ++ l3 /\
+  units (i_trim m a) =
+    (if m =? 0 then s_trim (units a) else if m =? 1 then s_trim_start (units a) else s_trim_end (units a)) /\
+  units (i_case up' a) = map (if up' then up else low) (units a).
+Proof. exact Proofs3.T_builtins_eq_spec. Qed.
+
+(* tree level: every expression tree without a JSON node evaluates to the reference units *)
+Theorem tree_eq_spec : forall e, plain e = true -> units (ieval e) = seval e.
+Proof. exact Proofs5.ieval_units. Qed.
 
 Example strop_lone_surrogates_preserved :
   units (concat (SUni [55357]) (SUni [56832])) = [55357; 56832] /\
-  units (substring (SUni [97; 55357; 56832]) 1 2) = [55357].
-Proof. vm_compute. auto. Qed.
+  units (substring (SUni [97; 55357; 56832]) 1 2) = [55357] /\
+  units (i_trim 0 (SUni [32; 55296; 32])) = [55296] /\
+  units (i_case true (SUni [97; 55296])) = [65; 55296] /\
+  units (concat (SImp [97; 195] false) (SImp [169; 98] false)) = [97; 65533; 65533; 98].
+Proof. vm_compute. repeat split. Qed.
 
-(* ---- 3. eq_hash_key_agree ------------------------------------------------------------------------------ *)
+(* ---- 3. eq_hash_key_agree: full strength, all nine pairs, all byte strings ----------------------------- *)
 
-(* === never identifies strings with different units: all nine pairs, any scanned flags *)
-Theorem strict_equals_sound : forall a b, nf a = true -> nf b = true ->
-  strict_equals a b = true -> units a = units b.
-Proof. exact Proofs2.strict_equals_sound. Qed.
+Theorem eq_hash_key_agree : forall a b, nf a = true -> nf b = true ->
+  (strict_equals a b = true <-> units a = units b) /\
+  (same_as a b = true <-> units a = units b) /\
+  (equals a b = true <-> units a = units b) /\
+  (raw_key a = raw_key b <-> units a = units b) /\
+  (hash_bytes a = hash_bytes b <-> units a = units b) /\
+  (map_hit a b = true <-> units a = units b) /\
+  (objkey_hit a b = true <-> units a = units b).
+Proof. exact Proofs3.T_eq_hash_key_agree. Qed.
 
-(* === is exactly equality of units for the eight pairs with at most one importedString *)
-Theorem strict_equals_partial : forall a b, nf a = true -> nf b = true -> both_imported a b = false ->
-  (strict_equals a b = true <-> units a = units b).
-Proof. exact Proofs3.T_strict_equals_partial. Qed.
-
-(* F19: imported x imported compares raw bytes: equal units, both === a third string, not === each other,
-   == true, Map lookup misses, object key hits *)
-Theorem strict_equals_refuted : exists a b,
-  nf a = true /\ nf b = true /\ units a = units b /\ strict_equals a b = false
-  /\ equals a b = true /\ map_hit a b = false /\ objkey_hit a b = true
-  /\ (exists l, nf l = true /\ strict_equals a l = true /\ strict_equals l b = true).
-Proof. exact strict_equals_imported_refuted. Qed.
-
-(* property keys and hash input agree with the units for ALL nine pairs (the 0xFEFF marker argument: an ASCII key
-   never starts with FF FE) *)
-Theorem key_hash_agree : forall a b, nf a = true -> nf b = true ->
-  (raw_key a = raw_key b <-> units a = units b) /\ (hash_bytes a = hash_bytes b <-> units a = units b).
-Proof. exact Proofs3.T_key_hash_agree. Qed.
-
-(* the keys of an importedString and a unicodeString with the same units coincide; and the nf hypothesis is needed:
-   outside normal form an "ASCII" key can collide with a UTF-16 key *)
-Example key_hash_nonvacuous :
-  raw_key (SImp [195; 169] false) = raw_key (SUni [233]) /\ raw_key (SAscii [255; 254]) = raw_key (SUni []).
-Proof. vm_compute. split; reflexivity. Qed.
+(* non-vacuity, and why importedString.StrictEquals must look at the scanned form (repaired by 8242a43):
+   equal units, different bytes *)
+Example eq_hash_key_nonvacuous :
+  strict_equals (SImp [97; 255] false) (SImp [97; 254] true) = true /\
+  raw_key (SImp [195; 169] false) = raw_key (SUni [233]) /\
+  raw_key (SAscii [255; 254]) = raw_key (SUni []) (* outside normal form keys can collide: nf is needed *) /\
+  (exists s t, units (SImp s false) = units (SImp t false) /\ list_eqb s t = false).
+Proof.
+  split; [vm_compute; reflexivity|]. split; [vm_compute; reflexivity|]. split; [vm_compute; reflexivity|].
+  exact Proofs2.raw_bytes_incomplete.
+Qed.
 
 (* ---- 4. compare_eq_spec: CompareTo is the lexicographic order on units, for all nine pairs ------------- *)
 
 Theorem compare_eq_spec : forall a b, compare_to a b = lex (units a) (units b).
-Proof. exact compare_to_spec. Qed.
+Proof. exact Proofs2.compare_to_spec. Qed.
 
 Theorem lex_order : forall a b, (lex a b = Eq <-> a = b) /\ CompOpp (lex a b) = lex b a.
 Proof. exact Proofs3.T_lex_order. Qed.
@@ -106,30 +126,66 @@ Example compare_nonvacuous :
   compare_to (SAscii [97]) (SImp [97; 195; 169] false) = Lt /\ compare_to (SUni [65535]) (SUni [55296; 56320]) = Gt.
 Proof. vm_compute. auto. Qed.
 
-(* ---- 5. export_eq --------------------------------------------------------------------------------------- *)
+(* ---- 5. export_eq ---------------------------------------------------------------------------------------- *)
 
-Theorem export_eq_partial : forall a, nf a = true -> (forall s sc, a <> SImp s sc) ->
+(* UTF-8 round trip: a well-formed byte string is the UTF-8 encoding of its runes, all scalar values *)
+Theorem utf8_roundtrip : forall s r, decode_strict s = Some r -> flat_map enc8 r = s /\ Forall scalar r.
+Proof. exact Utf8.utf8_roundtrip. Qed.
+
+Theorem utf16_roundtrip : forall r, Forall scalar r -> dec16 (flat_map enc16 r) = r.
+Proof. exact Utf8.utf16_roundtrip. Qed.
+
+(* Export = UTF-8 of the units (U+FFFD for lone surrogates) for asciiString, unicodeString and every importedString
+   holding well-formed UTF-8 *)
+Theorem export_eq : forall a, nf a = true -> (forall s sc, a = SImp s sc -> valid_utf8 s = true) ->
   export a = s_export (units a).
-Proof. exact export_spec. Qed.
+Proof. exact Proofs2.export_spec. Qed.
 
+(* still true of the code (left as API behaviour, open finding F19): an importedString with invalid UTF-8 exports
+   its raw bytes *)
 Theorem export_eq_refuted : exists a, nf a = true /\ export a <> s_export (units a).
-Proof. exact export_imported_refuted. Qed.
+Proof. exact Proofs2.export_imported_refuted. Qed.
 
-Example export_lone_surrogate : export (SUni [97; 55296]) = [97; 239; 191; 189].
-Proof. vm_compute. reflexivity. Qed.
+Example export_lone_surrogate : export (SUni [97; 55296]) = [97; 239; 191; 189] /\ valid_utf8 [240; 159; 152; 128] = true.
+Proof. vm_compute. auto. Qed.
+
+(* ---- 6. the property, end to end on the model ---------------------------------------------------------- *)
+
+Theorem equal_trees_indistinguishable : forall e1 e2, plain e1 = true -> plain e2 = true -> seval e1 = seval e2 ->
+  let a := ieval e1 in let b := ieval e2 in
+  strict_equals a b = true /\ strict_equals b a = true /\ same_as a b = true /\ equals a b = true /\
+  compare_to a b = Eq /\ compare_to b a = Eq /\
+  map_hit a b = true /\ map_hit b a = true /\ objkey_hit a b = true /\ hash_bytes a = hash_bytes b /\
+  length_of a = length_of b /\ (forall i, char_at a i = char_at b i).
+Proof. exact Proofs3.T_equal_trees_indistinguishable. Qed.
+
+Theorem different_trees_ordered : forall e1 e2, plain e1 = true -> plain e2 = true -> seval e1 <> seval e2 ->
+  strict_equals (ieval e1) (ieval e2) = false /\ map_hit (ieval e1) (ieval e2) = false /\
+  objkey_hit (ieval e1) (ieval e2) = false /\ compare_to (ieval e1) (ieval e2) = lex (seval e1) (seval e2) /\
+  compare_to (ieval e1) (ieval e2) <> Eq.
+Proof. exact Proofs3.T_different_trees_ordered. Qed.
+
+Example equal_trees_nonvacuous :
+  let e1 := EConcat (EImp [97; 255]) (ELit [55357]) in
+  let e2 := ESlice (EPad true (EU16 [65533; 55357]) 3%Z (EGo [97])) 0%Z 9%Z in
+  plain e1 = true /\ plain e2 = true /\ seval e1 = seval e2 /\ seval e1 = [97; 65533; 55357].
+Proof. vm_compute. auto. Qed.
 
 Print Assumptions nf_closed_constructors.
 Print Assumptions nf_closed.
 Print Assumptions builder_nf_units.
 Print Assumptions nf_closed_trees.
 Print Assumptions constructors_eq_spec.
-Print Assumptions strop_eq_spec_partial.
-Print Assumptions concat_eq_spec_refuted.
-Print Assumptions strict_equals_sound.
-Print Assumptions strict_equals_partial.
-Print Assumptions strict_equals_refuted.
-Print Assumptions key_hash_agree.
+Print Assumptions strop_eq_spec.
+Print Assumptions concat_fast_path_sound.
+Print Assumptions builtins_eq_spec.
+Print Assumptions tree_eq_spec.
+Print Assumptions eq_hash_key_agree.
 Print Assumptions compare_eq_spec.
 Print Assumptions lex_order.
-Print Assumptions export_eq_partial.
+Print Assumptions utf8_roundtrip.
+Print Assumptions utf16_roundtrip.
+Print Assumptions export_eq.
 Print Assumptions export_eq_refuted.
+Print Assumptions equal_trees_indistinguishable.
+Print Assumptions different_trees_ordered.
